@@ -23,6 +23,7 @@
 */
 
 #include <cstdlib>
+#include <vector>
 
 #include "libavoid/shape.h"
 #include "libavoid/vertices.h"
@@ -93,8 +94,15 @@ static double absoluteOffsetInverse(double offset,
 void ShapeRef::transformConnectionPinPositions(
         ShapeTransformationType transform)
 {
-    for (ShapeConnectionPinSet::iterator curr = 
-            m_connection_pins.begin(); curr != m_connection_pins.end(); ++curr)
+    // The pins are kept in a set ordered by the very offsets and visibility
+    // directions changed below, so they are taken out of the set while
+    // these are modified and put back in afterwards.
+    std::vector<ShapeConnectionPin *> pins(m_connection_pins.begin(),
+            m_connection_pins.end());
+    m_connection_pins.clear();
+
+    for (std::vector<ShapeConnectionPin *>::iterator curr = pins.begin();
+            curr != pins.end(); ++curr)
     {
         ShapeConnectionPin *pin = *curr;
         double usingProportionalOffsets = pin->m_using_proportional_offsets;
@@ -219,6 +227,13 @@ void ShapeRef::transformConnectionPinPositions(
             if (visInDir[(rotationN + dirD) % 4])  visDirs |= ConnDirDown;
             if (visInDir[(rotationN + dirL) % 4])  visDirs |= ConnDirLeft;
         }
+    }
+    m_connection_pins.insert(pins.begin(), pins.end());
+
+    for (std::vector<ShapeConnectionPin *>::iterator curr = pins.begin();
+            curr != pins.end(); ++curr)
+    {
+        ShapeConnectionPin *pin = *curr;
         pin->updatePositionAndVisibility();
         m_router->modifyConnectionPin(pin);
     }
